@@ -262,6 +262,8 @@ def check_numpy(case):
     if case["float32"]:
         if not np.all(np.isfinite(arr)):
             return {"nontrivial": False, "classes": ["float32-overflow"]}
+    if layout == "strided" and arr.ndim == 0:
+        arr = arr[()]                      # a numpy scalar, not an array
     before = arr.copy()
     with warnings.catch_warnings():
         warnings.simplefilter("ignore")
